@@ -619,6 +619,13 @@ func genPLarge(r *rng, id string, cnt counters, emit func(line, out string)) (*p
 	if kind == "OSAP" && r.chance(65) {
 		kind = r.pickS("HP", "BHP", "DHP", "BDHP", "BUP", "GSAP") // the optimizing parser is the slow one
 	}
+	// the first script of every shard is a "huge" one (megabytes of history), one hash parser per shard
+	forceHuge := false
+	var sh, sk int
+	if n, _ := fmt.Sscanf(id, "%d.%d", &sh, &sk); n == 2 && sk == 0 {
+		forceHuge = true
+		kind = []string{"HP", "BHP", "DHP", "BDHP", "BUP"}[sh%5]
+	}
 	c := pcfg{kind: kind, f: map[string]int{}}
 	bs := r.pick(66000, 70000, 131080, 140000, 200000) + r.intn(100)
 	c.f["BufferSize"] = bs
@@ -640,6 +647,16 @@ func genPLarge(r *rng, id string, cnt counters, emit func(line, out string)) (*p
 	if kind == "GSAP" || kind == "OSAP" {
 		// a shrink that frees only a few bytes costs a suffix sort of the whole buffer per refill
 		c.f["ShrinkSize"] = r.pick(0, 1000, bs/2, bs/3)
+	}
+	huge := forceHuge || (kind != "GSAP" && kind != "OSAP" && r.chance(4))
+	if huge {
+		// several MiB of buffered history behind a smaller window: candidates that lie megabytes back
+		bs = r.pick(3<<20, 4<<20, 5<<20) + r.intn(100)
+		c.f["BufferSize"] = bs
+		c.f["WindowSize"] = r.pick(1<<20, 1<<20, 2<<20, 70000)
+		c.f["ShrinkSize"] = bs - r.pick(300000, 600000)
+		c.f["BlockSize"] = r.pick(0, 70000, 1<<20)
+		longOff = false
 	}
 	switch kind {
 	case "HP", "BHP":
@@ -697,6 +714,9 @@ func genPLarge(r *rng, id string, cnt counters, emit func(line, out string)) (*p
 	}
 	total := 0
 	limit := r.rangeIn(150000, 320000)
+	if huge {
+		limit = r.rangeIn(5<<20, 8<<20)
+	}
 	if kind == "GSAP" {
 		limit = r.rangeIn(100000, 180000) // a suffix sort per fill
 	}
@@ -705,7 +725,19 @@ func genPLarge(r *rng, id string, cnt counters, emit func(line, out string)) (*p
 	}
 	for guard := 0; guard < 400 && !e.dead && total < limit; guard++ {
 		var sp string
-		if longOff && len(segs) >= 2 && r.chance(60) {
+		if huge {
+			// a recurring aperiodic segment, separated by long low-entropy fillers (a run keeps the hash
+			// slots of the segment alive)
+			switch {
+			case len(segs) == 0:
+				sp = fmt.Sprintf("#%d:%d", r.intn(100000), r.rangeIn(20000, 120000))
+				segs = append(segs, sp)
+			case guard%2 == 1:
+				sp = fmt.Sprintf("=%d:%d", r.pick(0, 0, 97), r.pick(r.rangeIn(2100000, 3000000), r.rangeIn(2100000, 3000000), r.rangeIn(900000, 2000000)))
+			default:
+				sp = segs[0]
+			}
+		} else if longOff && len(segs) >= 2 && r.chance(60) {
 			sp = segs[max(0, len(segs)-r.rangeIn(2, 3))] // the segment before the previous one: distance > 64 KiB
 		} else if longOff && r.chance(60) {
 			sp = fmt.Sprintf("#%d:%d", r.intn(100000), r.rangeIn(66000, 90000)) // filler longer than 64 KiB
